@@ -1,5 +1,5 @@
 SPECIFICATION Spec
 CONSTANTS
   Mutant = "none"
-  StrictEmptyForm = FALSE
+  StrictEmptyForm = TRUE
 CHECK_DEADLOCK FALSE
